@@ -52,12 +52,18 @@ def run(tool, args, cwd, env, timeout=600, own_group=False):
         p = subprocess.run(cmd, cwd=str(cwd), env=env, stdout=subprocess.PIPE, stderr=subprocess.STDOUT, timeout=timeout, start_new_session=own_group)
         out = p.stdout.decode("utf-8", "replace")
         i = out.find("FAILED:")
+        # the last line of every traceback (the exception itself): parallel steps may print thousands of characters
+        # between a failing step's traceback and the end of the build
+        import re as _re
+
+        exc_lines = _re.findall(r"^(?:[A-Za-z_][\w.]*(?:Error|Exception)|struct\.error|AssertionError)\b[^\n]{0,400}", out, _re.M)[:12]
+        tail_note = ("\nexception lines:\n" + "\n".join(exc_lines)) if exc_lines else ""
         if i >= 0 and len(out) - i > 4000:
             # keep the failing step's own traceback, not only the driver's
             j = out.find("Traceback", i)
             k = out.find("ninja: build stopped", i)
             out = out[i : i + 300] + "\n...\n" + out[max(i, (k if k > 0 else len(out)) - 2500) : (k if k > 0 else len(out))] + "\n...\n" + out[-600:]
-        return p.returncode, out[-4000:]
+        return p.returncode, out[-4000:] + tail_note
     except subprocess.TimeoutExpired as e:
         return None, "WATCHDOG " + (e.stdout or b"").decode("utf-8", "replace")[-2000:]
 
